@@ -20,7 +20,7 @@ impl Monitor for C12 {
         "C12"
     }
     fn gens(&self, tier: Tier) -> Vec<(&'static str, u64)> {
-        vec![("aggregate", tier.pick(840, 16_800))]
+        vec![("aggregate", tier.pick(8400, 168_000))]
     }
     fn rule(&self) -> &'static str {
         "case i -> objective (i mod 7), data-set size from {1,2,3,40,63,64,65,127,128,129,200,257} (i/7 mod 12; the parallel chunk is 64), soft-max output or not, output width 1 or >1, tolerance log-uniform in [1e-6,0.5], pool of 1..16 threads; random network ending in a dense layer (dense/conv/deconv/pool before it). Targets are generated from the network's own predictions so that every component is clearly inside (|t-p| <= tol/2) or clearly outside (>= 2 tol + 0.01) the tolerance and arg-max ties do not occur. Oracle: harness-side aggregation over the library's own predict() and objective loss(): mean loss (f64, bound n*eps), accuracy by the stated rule; predict_batch(xs)[i] must be bit-equal to predict(xs[i]) in input order (also for 0 inputs), predict(x) bit-equal to the last activation of forward(x). Distinct = distinct (network, objective, size, tolerance) descriptors."
